@@ -388,6 +388,7 @@ class SymExec:
         self.yield_handlers: List[Tuple[Any, Any]] = []     # (generator frame, handler) of generators inlined at their consumer
         self.heap: Dict[Any, Dict[str, Any]] = {}            # attributes stored on objects created on this path (by construction id)
         self.created: set = set()                            # construction ids of the objects created on this path
+        self.pattr: Dict[Any, Any] = {}                      # (object term, attribute) -> value stored on this path since the last opaque call
 
     # ----------------------------------------------------------- path driver
     def run(self) -> List[Path]:
@@ -425,6 +426,7 @@ class SymExec:
         self.yield_handlers = []
         self.heap = {}
         self.created = set()
+        self.pattr = {}
 
     def _run_once(self, prefix) -> Path:
         self._reset(prefix)
@@ -530,6 +532,11 @@ class SymExec:
     def emit(self, kind: str, node, **d) -> Event:
         e = Event(kind, node, tuple(self.ctx), self.fresh(), self.fn_stack[-1], d)
         self.events.append(e)
+        if kind == 'call' and self.pattr and not d.get('ctor'):
+            f_ = d.get('func')
+            pure_ = isinstance(f_, tuple) and f_[:2] == ('ref', 'builtin') and f_[2] in ('isinstance', 'len', 'str', 'int', 'bool', 'repr', 'type', 'id')
+            if not pure_ and not (d.get('resolved') and d.get('resolved') in self.facts.functions):
+                self.pattr = {}         # a callee the path does not go into may change any attribute it can reach
         return e
 
     # ------------------------------------------------------------ parameters
@@ -669,6 +676,14 @@ class SymExec:
                     cur_.elts.extend(val.elts)
                 else:
                     self.heap.setdefault(hk_, {})[t.attr] = new_
+            if hk_ is None and not isinstance(obj, (ProdVal, Closure, ListVal, DictVal)):
+                k_ = (freeze(obj), t.attr)
+                cur_ = freeze(self.pattr.get(k_, ('attr', k_[0], t.attr)))
+                fval_ = freeze(val)
+                if is_const(cur_) and is_const(fval_) and op in ('+', '-') and all(isinstance(x[1], int) and not isinstance(x[1], bool) for x in (cur_, fval_)):
+                    self.pattr[k_] = ('const', cur_[1] + fval_[1] if op == '+' else cur_[1] - fval_[1])
+                else:
+                    self.pattr[k_] = ('binop', op, cur_, fval_)
             self.emit('aug_attr', st, obj=obj, attr=t.attr, op=op, value=val)
         elif isinstance(t, ast.Subscript):
             obj = self.ev(t.value, fr)
@@ -1427,6 +1442,8 @@ class SymExec:
             hk_ = self._heap_key(obj)
             if hk_ is not None:
                 self.heap.setdefault(hk_, {})[target.attr] = v          # later reads of the attribute see this value
+            elif not isinstance(obj, (ProdVal, Closure, ListVal, DictVal)):
+                self.pattr[(freeze(obj), target.attr)] = keep(v)       # ... also on an object that came from outside
             fo_ = freeze(obj)
             if target.attr == '__doc__' and fr.module.name in self.module_env and isinstance(fo_, tuple) and fo_[:1] == ('ref',) \
                     and fo_[1] in ('fnraw', 'func'):
@@ -1765,6 +1782,10 @@ class SymExec:
         hk_ = self._heap_key(b) if isinstance(b, tuple) else None
         if hk_ is not None and name in self.heap.get(hk_, {}):
             return self.heap[hk_][name]
+        if self.pattr and hk_ is None and not isinstance(b, (ProdVal, Closure, ListVal, DictVal)):
+            pv_ = self.pattr.get((freeze(b), name))
+            if pv_ is not None:
+                return pv_              # the value this path stored there, no opaque call since
         if isinstance(b, tuple) and b and b[0] == 'new':
             for fn_, fv in b[2]:
                 if fn_ == name:
